@@ -11,6 +11,10 @@ HOOK_COMMITS = ["e364d764e802b6068fdf9985cfa7cb243dd54f15"]
 
 NOT_APPLICABLE = {}
 
+BIG_NOTE = (" About one case in eight runs in the Big mode of the generators (size thresholds): atoms from a universe of 300 values per type, "
+            "sets and maps of 9-120 elements, mutate/update arguments that are the whole current value or half of it plus fresh elements, "
+            "and fan-in transactions (33-70 new rows referring to one row).")
+
 CHECKS = {
     "C12": {
         "rule": "each case draws one wire type (UUID, OvsSet, OvsMap, Row, Condition, Mutation, Operation (all ten ops, "
@@ -38,12 +42,12 @@ CHECKS = {
     "C03": {
         "rule": "each case = a generated schema (1-3 tables, all column kinds: scalar/optional/set/map over integer, real, boolean, "
                 "string, uuid, enums, references, immutable columns, indexes) and a history of 1-20 transactions of 1-4 operations "
-                "(insert/select/update/mutate/delete/wait with generated where-clauses, every mutator, named uuids, server-assigned "
+                "(insert/select/update/mutate/delete/wait with generated where-clauses, every mutator - division and modulo by zero included, which must be refused -, named uuids, server-assigned "
                 "uuids) drawn against the evolving reference state; every transaction is executed on the in-memory database "
                 "(decoded from JSON text exactly as the server decodes a request) and on refdb, an independent RFC 7047 "
                 "interpreter; per-operation results, accept/reject decision, the complete database contents and the reported "
                 "update (pre-state + update2 difference = post-state) are compared after every step; every second transaction goes through "
-                "OvsdbServer.Transact itself, and after every transaction each stored row must be found through each schema index. TestC03API "
+                "OvsdbServer.Transact itself, and after every transaction each stored row must be found through each schema index." + BIG_NOTE + " TestC03API "
                 "(server + connected client): operations built through the model API - Where/WhereAll/WhereAny/WhereCache(...).Delete(), "
                 ".Update(model, 1-2 drawn columns), .Mutate(model, 1-3 drawn mutations, repeats included) - executed through the client must have "
                 "the effect refdb computes for the operations asked for. evaluations = histories / API cases. "
@@ -363,7 +367,7 @@ CHECKS = {
                 "and additional monitors alike. After every establishment and every transaction, for every monitor: "
                 "client.Cache().Table(t).Rows() projected on the monitored columns = Database.List of the server projected the same way "
                 "(no waiting: the server notifies before it replies), immediately after the issuer's own Transact too; all clients must "
-                "still be connected. TestC01Long: one history long enough to exceed the 65536-entry event buffer of the cache while a registered handler is slow: the cache must keep following the database (dropping events is allowed, dropping updates is not). evaluations = cases (each with up to ~100 cache/database comparisons). Non-trivial = a monitor established "
+                "still be connected. TestC01Long: one history long enough to exceed the 65536-entry event buffer of the cache while a registered handler is slow: the cache must keep following the database (dropping events is allowed, dropping updates is not). Between transactions a client that already monitors something sometimes makes a Monitor call that fails (a method the client does not know, a request the server refuses): its established monitors must go on being served." + BIG_NOTE + " evaluations = cases (each with up to ~100 cache/database comparisons). Non-trivial = a monitor established "
                 "strictly inside the history with committed transactions after it; distinct = hash of (schema kinds, monitor "
                 "methods/positions/schedules, history length).",
         "assumptions": COMMON_ASSUMPTIONS + [
